@@ -5,7 +5,9 @@ d=$(mktemp -d /tmp/seedrun-XXXXXX); cp -r /repo/include $d/
 ( cd $d && patch -s -p1 < "$SD/patch.diff" ) || { echo "patch failed"; rm -rf $d; exit 2; }
 cd /verif
 for id in "$@"; do
+  cp evidence/$id.json /tmp/evidence_$id.bak 2>/dev/null
   VERIF_REPO=$d ./check $id > "$SD/check_$id.log" 2>&1; rc=$?
+  cp /tmp/evidence_$id.bak evidence/$id.json 2>/dev/null   # evidence must describe runs against /repo itself
   echo "$id rc=$rc $(grep -c '^VIOLATION' "$SD/check_$id.log") violations: $(grep '^VIOLATION' "$SD/check_$id.log" | head -2 | tr '\n' ' ')"
   grep -E "BROKEN" "$SD/check_$id.log" | head -5
 done
